@@ -121,6 +121,17 @@ Definition mtgen_fns : program :=
     {| fn_name := "CodeId::instantiate"; fn_params := ["self"]; fn_consts := [];
      fn_body := (EBlock [SLet (PVar "msg") (ERecord "InstantiateMsg" [] None); STail (ERecord "InstantiateProxy" [("code_id", (EVar "self")); ("funds", (EArr [])); ("label", (EConst (VStr "Contract"))); ("admin", (ECon "None" [])); ("salt", (ECon "None" [])); ("msg", (EVar "msg"))] None)]) |} ].
 
+(* GENERATED code, for every contract and method: the exec / query / sudo / migrate proxy methods (one symbolic argument) *)
+Definition mtmeth_fns : program :=
+  [ {| fn_name := "ProxyT::exec_method"; fn_params := ["self"; "args"]; fn_consts := [];
+     fn_body := (EBlock [SLet (PVar "msg") (ECon "ExecMsg::of" [(EVar "args")]); STail (ECall "ExecProxy::new" [(EField (EVar "self") "contract_addr"); (EVar "msg"); (EField (EVar "self") "app")])]) |};
+    {| fn_name := "ProxyT::query_method"; fn_params := ["self"; "args"]; fn_consts := [];
+     fn_body := (EBlock [SLet (PVar "msg") (ECon "QueryMsg::of" [(EVar "args")]); STail (EMatch (ECall "extern::query_wasm_smart" [(ECall "into" [(EField (EVar "self") "app")]); (ECall "into" [(EField (EVar "self") "contract_addr")]); (EVar "msg")]) [(PCon "Ok" [PVar "hof_v1"], ECon "Ok" [EVar "hof_v1"]); (PCon "Err" [PVar "hof_v1"], ECon "Err" [ECon "Into::into" [EVar "hof_v1"]])])]) |};
+    {| fn_name := "ProxyT::sudo_method"; fn_params := ["self"; "args"]; fn_consts := [];
+     fn_body := (EBlock [SLet (PVar "msg") (ECon "SudoMsg::of" [(EVar "args")]); STail (EMatch (ECall "extern::wasm_sudo" [(ECall "App::app_mut" [(EField (EVar "self") "app")]); (ECall "into" [(EField (EVar "self") "contract_addr")]); (EVar "msg")]) [(PCon "Ok" [PVar "hof_v1"], ECon "Ok" [EVar "hof_v1"]); (PCon "Err" [PVar "hof_v1"], ECon "Err" [ECall "downcast_error" [EVar "hof_v1"]])])]) |};
+    {| fn_name := "ProxyT::migrate_method"; fn_params := ["self"; "args"]; fn_consts := [];
+     fn_body := (EBlock [SLet (PVar "msg") (ECon "MigrateMsg::new" [(EVar "args")]); STail (ECall "MigrateProxy::new" [(EField (EVar "self") "contract_addr"); (EVar "msg"); (EField (EVar "self") "app")])]) |} ].
+
 (* sylvia/src/into_response.rs: IntoMsg / IntoResponse; `enabled_features` = the cargo features switched on *)
 Definition resp_program (enabled_features : list string) : program :=
   [ {| fn_name := "SubMsg::into_msg"; fn_params := ["self"]; fn_consts := [];
